@@ -191,7 +191,21 @@ class Run:
                 self.violations.append((name + ":" + fl.get("key", ""), path, False))
 
     # ------------------------------------------------------------------ finish
+    def _expected(self):
+        """vacuity guard (a): every clause id recorded for this property on the unchanged tree (contracts/EXPECTED.json) must be
+        generated again; a missing one (function gone, slice not located, path vanished) is UNDECIDED, not discharged"""
+        path = os.path.join(ROOT, "contracts", "EXPECTED.json")
+        if not os.path.exists(path): return
+        try: exp = json.load(open(path)).get(self.pid, [])
+        except Exception: return
+        have = {re.sub(r"@[pq][0-9,]+$", "", o["id"]) for o in self.obls}
+        miss = [e for e in exp if e not in have]
+        for e in miss[:40]:
+            self.undecide(e, "expected obligation was not generated on this tree")
+        self.expected_missing = len(miss)
+
     def finish(self):
+        self._expected()
         wall = time.time() - self.t0
         nob = len(self.obls)
         ndis = sum(1 for o in self.obls if o["verdict"] == solver.DISCHARGED)
@@ -215,12 +229,13 @@ class Run:
             "checker_cmd": self.cmd,
             "trusted_base": sorted(self.trusted | {"pyvc VC generator (mitigated by CPython cross-check, canaries, covers)", "z3 %s" % z3.get_version_string()}),
             "assumed_contracts": sorted(self.assumed),
-            "obligation_list": [{k: v for k, v in o.items() if k in ("id", "verdict", "backend", "time_s", "kind", "known_finding")} for o in self.obls][:2000],
+            "obligation_list": [{k: v for k, v in o.items() if k in ("id", "verdict", "backend", "time_s", "kind", "known_finding")} for o in self.obls][:8000],
             "bounded": bool(self.bounded),
             "bounded_oracles": [{k: v for k, v in b.items() if k not in ("failures", "samples")} | {"failures": len(b.get("failures", []))} for b in self.bounded],
             "samples": samples[:12] or [{"note": "no cases"}],
             "source_sha256": Source().digest(),
             "notes": self.notes,
+            "expected_clause_ids_missing": getattr(self, "expected_missing", 0),
         }
         if self.bounded:
             cov["evaluations"] = ev_total
